@@ -164,7 +164,7 @@ func c07Run(inI interface{}, env *Env) *Failure {
 	qr := NewRand(uint64(len(in.Ops))*7919 + 23)
 	var post *Failure
 	// directory copies run a real fsloop (goroutines), so the history runs as a simulation
-	res := env.Sim(SimOpts{MaxSteps: 60000, FairSteps: 20000}, func() {
+	res := env.Sim(SimOpts{MaxSteps: 250000, FairSteps: 50000}, func() {
 		for i, op := range in.Ops {
 			if post = h.step(i, op); post != nil {
 				return
